@@ -10,6 +10,8 @@ package main
 //	mvalid <checkHash 0/1> <9 fields>   -> ok | err:<class>            (IsValid(hash, false))
 //	mvalidsz <checkHash 0/1> <9 fields> -> ok | err:<class>            (IsValid(hash, true): + the serialisation limits)
 //	mitem  <9 fields>                   -> <9 fields of the decoded manifest (groups without verdict)> | err
+//	mitemx <n> <item> <9 fields>        -> the decoded manifest | err      (leaf n of the stack item replaced by <item>:
+//	                                       n null, t/f, i<int>, x<bytes>, u<buffer>, a/s empty array/struct, m empty map)
 //	mcancall <perms> <hash> <callee group keys> <method>  -> true | false
 //
 //	9 fields = name groups features standards methods events permissions trusts extra
@@ -22,6 +24,7 @@ import (
 	"encoding/hex"
 	"encoding/json"
 	"fmt"
+	"math/big"
 	"strings"
 	"unicode/utf8"
 
@@ -367,6 +370,108 @@ func genManifest(r *prng.R, h util.Uint160, o *hx.Out) *manifest.Manifest {
 	return m
 }
 
+func leaves(it stackitem.Item, visit func(parent []stackitem.Item, i int)) {
+	switch it.Type() {
+	case stackitem.ArrayT, stackitem.StructT:
+		vs := it.Value().([]stackitem.Item)
+		for i := range vs {
+			switch vs[i].Type() {
+			case stackitem.ArrayT, stackitem.StructT:
+				leaves(vs[i], visit)
+			default:
+				visit(vs, i)
+			}
+		}
+	}
+}
+
+func bigOf(s string) *big.Int {
+	v, _ := new(big.Int).SetString(s, 10)
+	return v
+}
+
+// mutatedItemLine: replace the n-th leaf (preorder) of m's stack item and decode.
+func mutatedItemLine(o *hx.Out, k int, r *prng.R, m *manifest.Manifest, fields string) {
+	it, err := m.ToStackItem()
+	if err != nil {
+		return
+	}
+	n := 0
+	leaves(it, func([]stackitem.Item, int) { n++ })
+	if n == 0 {
+		return
+	}
+	target := r.Intn(n)
+	// (no value whose int64 is -1: smartcontract.UnknownType = -1 is in validParamTypes, the model's type codes are
+	// the non-negative ones — see props/C16.json)
+	ints := []string{"0", "1", "16", "17", "255", "256", "-2", "18446744073709551632", "-18446744073709551600", "-18446744073709551616",
+		"9223372036854775807", "9223372036854775808", "-9223372036854775808", "-9223372036854775809", "4294967312", "65536", "32768", "-128", "128"}
+	var repl stackitem.Item
+	var code string
+	switch r.Intn(9) {
+	case 0:
+		repl, code = stackitem.Null{}, "n"
+	case 1:
+		b := r.Chance(1, 2)
+		repl, code = stackitem.NewBool(b), map[bool]string{true: "t", false: "f"}[b]
+	case 2, 3:
+		v := ints[r.Intn(len(ints))]
+		repl, code = stackitem.NewBigInteger(bigOf(v)), "i"+v
+	case 4, 5:
+		bs := [][]byte{{}, {0x10}, {0x10, 0}, {0}, {0, 0, 1}, {0xfe}, {0x80}, {0xff, 0x7f}, []byte("name"), make([]byte, 32), make([]byte, 33), append(make([]byte, 31), 0x80), {0x10, 0, 0, 0, 0, 0, 0, 0, 1}, {0xc3, 0x28}}[r.Intn(14)]
+		repl, code = stackitem.NewByteArray(bs), "x"+hexOrDash(bs)
+	case 6:
+		bs := [][]byte{{}, {0x10}, []byte("buf"), make([]byte, 64)}[r.Intn(4)]
+		repl, code = stackitem.NewBuffer(bs), "u"+hexOrDash(bs)
+	case 7:
+		if r.Chance(1, 2) {
+			repl, code = stackitem.NewArray(nil), "a"
+		} else {
+			repl, code = stackitem.NewStruct(nil), "s"
+		}
+	default:
+		repl, code = stackitem.NewMap(), "m"
+	}
+	i := 0
+	leaves(it, func(parent []stackitem.Item, j int) {
+		if i == target {
+			parent[j] = repl
+		}
+		i++
+	})
+	obs := hx.Safe(func() string {
+		m2, err := itemManifest(it)
+		if err != nil {
+			return "err"
+		}
+		// oracle on the real code: what FromStackItem accepted is a manifest value whose own stack item decodes to itself
+		it2, err := m2.ToStackItem()
+		if err != nil {
+			o.Fail("manifest-decoded-not-stable", k, "FromStackItem accepted a mutated item (leaf %d := %s of %s) whose manifest has no stack item: %v", target, code, fields, err)
+		} else if m3, err := itemManifest(it2); err != nil || encNoExtra(m3) != encNoExtra(m2) {
+			o.Fail("manifest-decoded-not-stable", k, "FromStackItem accepted a mutated item (leaf %d := %s of %s) whose manifest does not survive its own round trip", target, code, fields)
+		}
+		return encManifest(m2, nil)
+	})
+	o.Line(fmt.Sprintf("mitemx %d %s %s", target, code, fields), obs)
+	if obs == "panic" {
+		o.Fail("manifest-panic", k, "FromStackItem panicked on a mutated item (leaf %d := %s of %s)", target, code, fields)
+	}
+	if obs == "err" {
+		o.Count("manifest:itemx:refused:" + code[:1])
+	} else {
+		o.Count("manifest:itemx:accepted:" + code[:1])
+	}
+}
+
+// encNoExtra: the encoding without the `extra` field (FromStackItem takes any bytes for it, ToStackItem re-marshals it
+// as JSON: an `extra` that is not JSON does not survive, which no permission or validity decision depends on).
+func encNoExtra(m *manifest.Manifest) string {
+	c := *m
+	c.Extra = nil
+	return encManifest(&c, nil)
+}
+
 func itemManifest(it stackitem.Item) (*manifest.Manifest, error) {
 	m := new(manifest.Manifest)
 	if err := m.FromStackItem(it); err != nil {
@@ -480,6 +585,12 @@ func manifestCase(o *hx.Out, k int, r *prng.R) {
 	}
 	if obs2 == "panic" {
 		o.Fail("manifest-panic", k, "the stack-item round trip panicked on %s", fields)
+	}
+	// 2b. items ToStackItem could NOT have produced: one leaf of the stack item replaced by an item of another type
+	// (Integer/Boolean/Buffer where bytes are expected, ByteArray where an integer or boolean is expected, integers
+	// around the int64 range, null / containers), then FromStackItem
+	for rep := 0; rep < 2; rep++ {
+		mutatedItemLine(o, k, r, m, fields)
 	}
 	// 3. the property's view: a valid manifest stays valid and decides every call the same way after the round trip,
 	// after a JSON round trip, and whatever the order of its permissions
